@@ -24,6 +24,7 @@ func init() {
 		Run: func(t *T) {
 			direct(t)
 			files(t)
+			cli(t)
 		},
 	})
 }
